@@ -3,7 +3,11 @@
 Everything here is a pure function of the ``random.Random`` it is given; no
 set is iterated, no clock is read.  The generator never calls the system under
 test: an op list is fixed before the run that executes it starts."""
+import json
+import math
+import random
 import re
+import zlib
 
 from . import stubs
 from .stubs import ELEMENTS, ORGANIC, PRESET_NAMES, key_of
@@ -474,7 +478,30 @@ def gen_history(rng, prop, tier="quick"):
         ops.append({"op": "alpha_decode", "seed": rng.getrandbits(30), "count": 12, "maxlen": 80})
     for i, op in enumerate(ops):
         op["id"] = i          # handles refer to ids, so a minimised history stays meaningful
+    if prop == "C11" and not cfg["fault_free"]:
+        ops = _add_cancellations(cfg, ops)
     return cfg, ops
+
+
+def _add_cancellations(cfg, ops):
+    """Fault kind 'cancel' (a quarter of the C11 runs): a translation call is cancelled by the
+    simulator at an arbitrary step inside the library (SimCancel raised at the n-th line event),
+    and the same call follows at once, uncancelled and judged.  Drawn from a generator of its own,
+    seeded by the history, so that the main stream and every other run stay as they were."""
+    crng = random.Random(zlib.crc32(json.dumps(ops, sort_keys=True, default=repr).encode()))
+    cfg["cancel"] = crng.random() < 0.25
+    if not cfg["cancel"]:
+        return ops
+    out, nid = [], len(ops)
+    for op in ops:
+        if op["op"] in ("decode", "encode") and crng.random() < 0.35:
+            c = dict(op, id=nid, why="cancel")
+            c.pop("gt", None)
+            c["cancel"] = int(math.exp(crng.uniform(0.0, math.log(6000.0))))
+            nid += 1
+            out.append(c)
+        out.append(op)
+    return out
 
 
 class _GenState:
